@@ -9,8 +9,11 @@ Line-protocol handlers for `RbModel.Files` (requests `files.*`).
           `(close (h*))` `(kill NAME)` `(name NAME NAME)` `(field h ((w v)*))` `(lset v (BYTE*))` `(put h n)`
           `(get h n)` `(show v)` `(cinput v)` `(cline v)`
 answers `OUT;OUT;...|k=d;k=BYTES;...` with OUT = `ok` | `e<code>` | `v<bytes>` | `f0` | `f1`, the listing sorted
-by name.  Bytes must be ASCII (< 128); an LSET whose variable is fielded on two open handles is refused
-(the real code's choice depends on hash-map order).
+by name.  Bytes must be ASCII (< 128), except in the value of an LSET, which may hold any byte (< 256): a record of a
+RANDOM file is a sequence of bytes, and LSET / PUT / GET / show never look inside a value (the generators keep values
+with bytes of the upper half away from files that a text reader opens: the UTF-8 validation of the text readers is
+not modelled); an LSET whose variable is fielded on two open handles is refused (the real code's choice depends on
+hash-map order).
 
 `(files.scan field|line|eof (BYTE*))` answers `OUT|rest bytes|looked` for the pure scanners.
 -/
@@ -20,6 +23,11 @@ open RbModel RbModel.Files
 def bytes? (s : Sexp) : Option (List Nat) := do
   let l ← s.nats?
   if l.all (· < 128) then some l else none
+
+/-- the value of an LSET: any byte -/
+def recBytes? (s : Sexp) : Option (List Nat) := do
+  let l ← s.nats?
+  if l.all (· < 256) then some l else none
 
 def name? : Sexp → Option Name
   | .list [.atom "p", k] => do pure (.plain (← k.nat?))
@@ -47,7 +55,7 @@ def op? : Sexp → Option Op
   | .list [.atom "kill", n] => do pure (.kill (← name? n))
   | .list [.atom "name", o, n] => do pure (.name (← name? o) (← name? n))
   | .list [.atom "field", h, .list fs] => do pure (.field (← h.nat?) (← fs.mapM pair?))
-  | .list [.atom "lset", v, b] => do pure (.lset (← v.nat?) (← bytes? b))
+  | .list [.atom "lset", v, b] => do pure (.lset (← v.nat?) (← recBytes? b))
   | .list [.atom "put", h, n] => do pure (.put (← h.nat?) (← n.nat?))
   | .list [.atom "get", h, n] => do pure (.get (← h.nat?) (← n.nat?))
   | .list [.atom "show", v] => do pure (.show (← v.nat?))
